@@ -579,9 +579,172 @@ func (c C06) runSubscription(t *tape.Tape, opt core.RunOpt) (res core.Result) {
 	return
 }
 
+// c06ArgFields are request fields with arguments, each argument with a good
+// value and values that cannot be formed ("" = the argument is left out,
+// which fails for a required argument).
+var c06ArgFields = []struct {
+	pre, post, name string
+	args            []struct {
+		name, good string
+		bad        []string
+	}
+}{
+	{"{ ", " }", "echo", []struct {
+		name, good string
+		bad        []string
+	}{
+		{"s", `"a"`, []string{`[1]`, `{a: 1}`, ``}}, {"n", `1`, []string{`"x"`, `[1]`, ``, `1.5`}}}},
+	{"{ animals { name ", " } }", "call", []struct {
+		name, good string
+		bad        []string
+	}{
+		{"prefix", `"p"`, []string{`[1]`, `{a: 1}`}}, {"suffix", `"s"`, []string{`{b: 2}`, `[true]`}}}},
+	{"mutation { ", " { name } }", "rename", []struct {
+		name, good string
+		bad        []string
+	}{
+		{"old", `"k0"`, []string{`[1]`, ``}}, {"new", `"zz"`, []string{`{a: 1}`, ``}}}},
+	{"{ title ", " }", "span", []struct {
+		name, good string
+		bad        []string
+	}{
+		{"r", `{lo: 1}`, []string{`{lo: "x"}`, `{hi: [1]}`, `{lo: "x", hi: "y"}`, `{inner: {lo: "x"}, tags: {a: 1}}`, `5`}}}},
+	{"{ ", " { name } }", "find", []struct {
+		name, good string
+		bad        []string
+	}{
+		{"filter", `{minAge: 1}`, []string{`{minAge: "x"}`, `{minAge: "x", limit: "y"}`, `{names: {a: 1}, size: 5}`}}}},
+}
+
+// runArgFailures is the argument family of C06: a field whose arguments cannot
+// be formed fails at that position. Each unformable argument alone gives its
+// entries; several of them together must give the union of those entries (one
+// entry per independent failure), and the data must be the same.
+func (c C06) runArgFailures(t *tape.Tape, opt core.RunOpt) (res core.Result) {
+	// (not the reflection strategy: there the library refuses the method call as
+	// a whole, which is one failure however many arguments do not fit)
+	strat := []workload.Strategy{workload.StratInterface, workload.StratAnyWrapped, workload.StratAny}[t.Draw(3)]
+	q := workload.GenZoo(t)
+	f := c06ArgFields[t.Draw(len(c06ArgFields))]
+	render := func(vals []string) string {
+		var as []string
+		for i, a := range f.args {
+			if vals[i] != "" {
+				as = append(as, a.name+": "+vals[i])
+			}
+		}
+		call := f.name
+		if len(as) > 0 {
+			call += "(" + strings.Join(as, ", ") + ")"
+		}
+		return f.pre + call + f.post
+	}
+	resolve := func(src string) (map[string]interface{}, string) {
+		z, err := workload.NewZoo(q, strat)
+		if err != nil {
+			return nil, "cannot build root: " + err.Error()
+		}
+		var out map[string]interface{}
+		pan := ""
+		func() {
+			defer func() {
+				if r := recover(); r != nil {
+					pan = fmt.Sprint(r)
+				}
+			}()
+			out = z.Root.ResolveString(src, "", nil)
+		}()
+		return out, pan
+	}
+	entries := func(r map[string]interface{}) []string {
+		var out []string
+		ea, _ := r["errors"].([]interface{})
+		for _, e := range ea {
+			m, _ := e.(map[string]interface{})
+			out = append(out, workload.CanonLite(m["path"])+" "+workload.CanonLite(m["message"]))
+		}
+		sort.Strings(out)
+		return out
+	}
+	good := make([]string, len(f.args))
+	for i, a := range f.args {
+		good[i] = a.good
+	}
+	// which arguments are bad, and how
+	bad := make([]string, len(f.args))
+	nbad := 0
+	for i, a := range f.args {
+		bad[i] = a.good
+		if t.Bool(2, 3) {
+			bad[i] = a.bad[t.Draw(len(a.bad))]
+			nbad++
+		}
+	}
+	res.Evaluations = 1
+	res.Sig = core.Hash64("c06args", strat.String(), render(bad))
+	res.Count("probe_argument_failure_family", 1)
+	if nbad == 0 {
+		return
+	}
+	var union []string
+	var dataSingle string
+	var singles []string
+	for i := range f.args {
+		if bad[i] == f.args[i].good {
+			continue
+		}
+		vals := append([]string(nil), good...)
+		vals[i] = bad[i]
+		src := render(vals)
+		r, pan := resolve(src)
+		res.Evaluations++
+		if pan != "" {
+			res.Violate("C06", "panic_on_resolver_failure", fmt.Sprintf("%s strategy: %s panicked: %s", strat, src, pan), nil)
+			return
+		}
+		es := entries(r)
+		if len(es) == 0 {
+			// the library accepts this value for this argument: not a failure
+			res.Count("argument_value_accepted_skipped", 1)
+			return
+		}
+		union = append(union, es...)
+		dataSingle = workload.CanonLite(r["data"])
+		singles = append(singles, src+" -> "+workload.CanonLite(r))
+	}
+	if nbad < 2 {
+		return
+	}
+	res.NonTrivial = true
+	sort.Strings(union)
+	src := render(bad)
+	r, pan := resolve(src)
+	res.Evaluations++
+	if opt.WantSample {
+		res.Sample = map[string]interface{}{"family": "several arguments of one field that cannot be formed", "strategy": strat.String(), "request": src, "alone": singles, "response": workload.CanonLite(r)}
+	}
+	if pan != "" {
+		res.Violate("C06", "panic_on_resolver_failure", fmt.Sprintf("%s strategy: %s panicked: %s", strat, src, pan), nil)
+		return
+	}
+	got := entries(r)
+	if strings.Join(got, "\n") != strings.Join(union, "\n") {
+		res.Violate("C06", "failure_not_reported_exactly_once", fmt.Sprintf("%s strategy: %d arguments of one field cannot be formed; each alone gives\n  %s\ntogether the response must carry the union of those entries\n  %s\nbut carries\n  %s\nrequest: %s\nresponse: %s",
+			strat, nbad, strings.Join(singles, "\n  "), strings.Join(union, "\n  "), strings.Join(got, "\n  "), src, workload.CanonLite(r)), nil)
+		return
+	}
+	if d := workload.CanonLite(r["data"]); d != dataSingle {
+		res.Violate("C06", "partial_data_wrong", fmt.Sprintf("%s strategy: with several unformable arguments the data is %s, with one of them %s\nrequest: %s", strat, d, dataSingle, src), nil)
+	}
+	return
+}
+
 func (c C06) Run(t *tape.Tape, opt core.RunOpt) (res core.Result) {
 	if t.Bool(1, 12) {
 		return c.runSubscription(t, opt)
+	}
+	if t.Bool(1, 12) {
+		return c.runArgFailures(t, opt)
 	}
 	strat := []workload.Strategy{workload.StratInterface, workload.StratInterface, workload.StratAnyWrapped, workload.StratAnyWrapped, workload.StratReflect, workload.StratAny}[t.Draw(6)]
 	pathAware := strat == workload.StratInterface || strat == workload.StratAnyWrapped
